@@ -133,6 +133,34 @@ def gcSafe (s : SpecState Name) (o : DeployObs Name) : Bool :=
     | some sl => sl.lbl
     | none => true
 
+/-- The template the API holds decodes — against the slices that exist now — to exactly the desired phases, and
+every slice it references is controlled by the deployment (the body of `lossless`). -/
+def tmplLossless (desired : List (List Obj)) (o : DeployObs Name) : Bool :=
+  match o.tmpl with
+  | none => false
+  | some t =>
+    decide (decode o.store t = some desired) &&
+    (refs t).all fun n => match getSlice o.store n with | some s => s.ctl | none => false
+
+/-- Fail-safe under an API fault: a failed reconcile deletes nothing, and the template the API holds afterwards is
+the one it held before (an absent deployment stays absent or was pre-created empty) — or, when the fault struck
+after the Update had been stored, a complete lossless encoding of the desired phases: never something in between. -/
+def failSafeF (f : DFault) (s : SpecState Name) (desired : List (List Obj)) (o : DeployObs Name) : Bool :=
+  o.ok || (o.deleted.isEmpty &&
+    (decide (o.tmpl = s.tmpl) || decide (o.tmpl = some (s.tmpl.getD [])) || (f.afterUpdate && tmplLossless desired o)))
+
+/-- "… never deletes a slice still referenced by the deployment template", read on the API: if every slice
+referenced by the template STORED in the API existed before the call, every slice referenced by the template
+stored afterwards exists — whether the call succeeded or failed, whatever fault hit it. -/
+def storedLoadable (s : SpecState Name) (o : DeployObs Name) : Bool :=
+  !(decode s.store (s.tmpl.getD [])).isSome || (decode o.store (o.tmpl.getD [])).isSome
+
+/-- The specification of one `Reconcile` hit by the API fault `f`. -/
+def deployOkF (isHashOf : Name → List Obj → Bool) (f : DFault) (s : SpecState Name) (desired : List (List Obj))
+    (o : DeployObs Name) : Bool :=
+  lossless desired o && failSafeF f s desired o && namedByContent isHashOf s o && noReuse s o &&
+  sameContentSameName o && gcSafe s o && storedLoadable s o
+
 def deployOk (isHashOf : Name → List Obj → Bool) (s : SpecState Name) (desired : List (List Obj))
     (o : DeployObs Name) : Bool :=
   lossless desired o && failSafe s o && namedByContent isHashOf s o && noReuse s o &&
